@@ -206,6 +206,7 @@ func runUnaryScript(rng *Rng, o iuOpts) *iuScript {
 		}
 	}
 	exec := func(op string) iuStep {
+		noteStep("inproc/unary", sc.line(), op)
 		st := iuStep{op: op}
 		name, arg := op, ""
 		if i := strings.Index(op, ":"); i >= 0 {
